@@ -76,12 +76,14 @@ class SharedObjects:
         except Exception as e:          # the kind of failure is part of the behaviour
             return ("exc", type(e).__name__)
 
-    def check(self, key, make, call, d, info, mutants=2):
+    def check(self, key, make, call, d, info, mutants=2, poison=()):
         key = repr(key)
         if key not in self.objs:
             self.objs[key] = make()
         shared = self.objs[key]
-        todo = [("the same tree", d)]
+        # inputs on which the call fails half-way: whatever they leave behind must not show afterwards
+        todo = [("a tree on which the call fails", dd) for dd in poison if dd is not None]
+        todo += [("the same tree", d)]
         for _ in range(mutants):
             mu = gen.mutate_tree(self.rng, d)
             if mu is not None:
